@@ -6,6 +6,7 @@ import (
 	"fmt"
 	"sort"
 	"strings"
+	"time"
 
 	sdk "github.com/cosmos/cosmos-sdk/types"
 	"github.com/tendermint/tendermint/libs/log"
@@ -102,7 +103,10 @@ type probe struct {
 
 // inst is the per-execution state.
 type inst struct {
-	cfg   *Config
+	cfg *Config
+	// free-running mode (supplementary -race pass, free.go): real goroutines, shim in pass-through
+	// mode; nil in controlled executions
+	free  *freeRun
 	seen  map[string]bool // explore mode: signatures already reported by this worker (nil: report everything)
 	known map[string]bool // signatures listed as known findings: tallied, not reported
 
@@ -232,7 +236,9 @@ func (chainQuery) ActiveLeasesForProvider(sdk.AccAddress) ([]mtypes.QueryLeaseRe
 type chainTx struct{ h *inst }
 
 func (t chainTx) Broadcast(ctx context.Context, msgs ...sdk.Msg) error {
+	t.h.lock()
 	t.h.nBroadcast++
+	t.h.unlock()
 	return nil
 }
 
@@ -255,9 +261,12 @@ func (c *sclient) Deployments(context.Context) ([]ctypes.Deployment, error) { re
 
 func (c *sclient) Inventory(ctx context.Context) ([]ctypes.Node, error) {
 	h := c.h
+	h.lock()
 	h.nInventory++
-	vs.Note("inventory", h.nInventory)
-	if h.nInventory == 1 {
+	n := h.nInventory
+	h.unlock()
+	vs.Note("inventory", n)
+	if n == 1 {
 		return []ctypes.Node{cluster.NewNode("node-a", nodeUnits(), nodeUnits())}, nil
 	}
 	vs.Recv(ctx.Done())
@@ -266,9 +275,12 @@ func (c *sclient) Inventory(ctx context.Context) ([]ctypes.Node, error) {
 
 func (c *sclient) LeaseStatus(ctx context.Context, lid mtypes.LeaseID) (*ctypes.LeaseStatus, error) {
 	h := c.h
+	h.lock()
 	h.nStatus++
-	vs.Note("status", h.nStatus)
-	if h.nStatus <= h.cfg.StatusCalls {
+	n := h.nStatus
+	h.unlock()
+	vs.Note("status", n)
+	if n <= h.cfg.StatusCalls {
 		return &ctypes.LeaseStatus{Services: map[string]*ctypes.ServiceStatus{svcName: {Name: svcName, Available: 1, Total: 1}}}, nil
 	}
 	vs.Recv(ctx.Done())
@@ -276,6 +288,8 @@ func (c *sclient) LeaseStatus(ctx context.Context, lid mtypes.LeaseID) (*ctypes.
 }
 
 func (h *inst) begin(kind string, lid mtypes.LeaseID, version int) *call {
+	h.lock()
+	defer h.unlock()
 	c := &call{kind: kind, seq: len(h.calls), version: version, release: make(chan string)}
 	if !lid.Equals(h.lease) {
 		vs.Fatalf("c14: %s for a foreign lease %v", kind, lid)
@@ -283,11 +297,19 @@ func (h *inst) begin(kind string, lid mtypes.LeaseID, version int) *call {
 	for _, a := range h.active {
 		c.activeAtStart = append(c.activeAtStart, a.id())
 	}
+	c.resAtStart = cluster.VerifC14ReservationCount(h.svc)
+	if h.free != nil {
+		// free-running: the accessors below read the service's manager map and the hostname table from
+		// this goroutine - fine under the scheduler, a race of the harness with real goroutines
+		c.hostAtStart = true
+		h.calls = append(h.calls, c)
+		h.active = append(h.active, c)
+		return c
+	}
 	if ch := cluster.VerifC14TeardownChan(h.svc, lid); ch != nil {
 		h.tdch = ch // kept: the service forgets the manager once it is done
 	}
 	c.tdAccepted = vs.RecvCountNow(h.tdch)
-	c.resAtStart = cluster.VerifC14ReservationCount(h.svc)
 	if len(h.calls) == 0 {
 		// what the hostname service itself holds for the deployment when the manager issues its first
 		// operation: the set that must stay reserved while operations are in flight (hostnames of later
@@ -317,6 +339,8 @@ func (h *inst) reservedHeld() bool {
 }
 
 func (h *inst) end(c *call, res string) {
+	h.lock()
+	defer h.unlock()
 	for i, a := range h.active {
 		if a == c {
 			h.active = append(append([]*call{}, h.active[:i]...), h.active[i+1:]...)
@@ -324,7 +348,7 @@ func (h *inst) end(c *call, res string) {
 		}
 	}
 	c.resAtEnd = cluster.VerifC14ReservationCount(h.svc)
-	c.hostAtEnd = h.reservedHeld()
+	c.hostAtEnd = h.free != nil || h.reservedHeld()
 	vs.Note("end", c.seq, c.resAtEnd, c.hostAtEnd)
 	c.result = res
 }
@@ -353,13 +377,22 @@ func (c *sclient) TeardownLease(ctx context.Context, lid mtypes.LeaseID) error {
 // body: the real cluster service (service.run + inventoryService + hostnameService, and per lease
 // deploymentManager + monitor + withdrawal as the service starts them) on a real bus.
 
+// pollPeriod: virtual under the scheduler (the value is irrelevant, timers fire by choice); a few
+// real milliseconds when free-running, so that the second inventory check also happens there.
+func (h *inst) pollPeriod() time.Duration {
+	if h.free != nil {
+		return 2 * time.Millisecond
+	}
+	return 5 * time.Second
+}
+
 func (h *inst) body() {
 	vs.Label("harness")
 	h.bus = pubsub.NewBus()
 	h.ctx, h.cancel = context.WithCancel(context.Background())
 	sess := session.New(log.NewNopLogger(), chainClient{h}, &ptypes.Provider{Owner: h.provider.String()})
 	cfg := cluster.Config{
-		InventoryResourcePollPeriod:     5e9,
+		InventoryResourcePollPeriod:     h.pollPeriod(),
 		InventoryResourceDebugFrequency: 10,
 		InventoryExternalPortQuantity:   100,
 	}
@@ -378,6 +411,11 @@ func (h *inst) body() {
 	// not part of C14's alphabet: let the first tick happen now; the check it starts stays in flight
 	// (scripted Inventory, call 2), so the timer is never armed again and does not multiply the
 	// schedules below. Reservations, lookups, status and unreserve are served regardless.
+	if h.free != nil {
+		h.setupDone = true
+		h.free.start(h)
+		return
+	}
 	vs.Op("await-second-inventory-check", nil, vs.FoldNone, func() bool { return h.nInventory >= 2 }, nil)
 	h.setupDone = true
 	vs.GoEnv(h.environment)
@@ -472,6 +510,10 @@ func (h *inst) publishClosed() {
 // flight) the end-of-history obligations of the statement are evaluated first - through the
 // service's own API, while it is still running. Then the provider's context is cancelled.
 func (h *inst) requestShutdown() {
+	if h.free != nil {
+		h.requestShutdownFree()
+		return
+	}
 	q := vs.Quiescent()
 	h.settled = q && len(h.pendingCalls()) == 0
 	if h.settled {
